@@ -429,7 +429,7 @@ CHECKS["C16"] = {
     "rule": "threads: E = GraphExecutor::run() of a real-time graph (push source -> recording sink), producers P1/P2 running scripts of try_send / "
             "send_blocking, optional stopper calling request_stop(). Exactly one thread runs at a time; every pthread_mutex_lock/trylock, "
             "cond wait/signal/broadcast of the runtime and of libstdc++ is a scheduling point; a timed wait expires only by an explicit scheduler "
-            "choice that advances the virtual clock. Configurations: policy {queue, burst, conflating} x capacity {1, 2, unbounded} x 9 producer "
+            "choice that advances the virtual clock; a spurious wake-up of any condition waiter is a further deviation (cost 1). Configurations: policy {queue, burst, conflating} x capacity {1, 2, unbounded} x 9 producer "
             "scripts (1-2 producers, 1-4 sends) x {stopper, none}; plus a conflating TSD<Int,TS<Int>> source with 6 scripts mixing key writes and "
             "no-op removals of absent keys (every accepted key write must appear in the merged state). Each complete execution is checked: no value twice; nothing delivered that was "
             "refused or never sent; one value per cycle (burst: one tuple) at strictly increasing times; delivery order respects per-producer order "
